@@ -827,6 +827,37 @@ MUTANTS = {
           "      if not self.groups:\n"
           "        self.groups = dict.fromkeys(self.limit, {})\n"
           "      self.groups[name][index] = (q_name, q_dict[q_name])\n")]),
+    # --- round 18 ---------------------------------------------------------
+    "m135_ternary_threshold_with_epsilon": dict(expect=["C04"], edits=[
+        E("qkeras/quantizers.py",
+          "        thres = scale / 2.0\n",
+          "        thres = scale / 2.0 + K.epsilon()\n")]),
+    "m136_dense_bias_constraint_from_kernel": dict(expect=["C12"], edits=[
+        E("qkeras/qlayers.py",
+          "          get_auto_range_constraint_initializer("
+          "self.bias_quantizer_internal,\n"
+          "                                                bias_constraint,\n",
+          "          get_auto_range_constraint_initializer("
+          "self.kernel_quantizer_internal,\n"
+          "                                                bias_constraint,\n"
+          )]),
+    "m137_transpose_output_padding_swapped": dict(expect=["C11"], edits=[
+        E("qkeras/qconvolutional.py",
+          "      out_pad_h, out_pad_w = self.output_padding\n",
+          "      out_pad_w, out_pad_h = self.output_padding\n")]),
+    "m138_np_value_first_entry_of_any_array": dict(expect=["C16"], edits=[
+        E(QO + "quantizer_impl.py",
+          "    if isinstance(val, np.ndarray) and len(val) == 1:\n",
+          "    if isinstance(val, np.ndarray) and len(val) >= 1:\n")]),
+    "m139_list_entries_without_sign": dict(expect=["C10"], edits=[
+        E("qkeras/safe_eval.py",
+          "def ListofNums(s):\n"
+          "  # remove list brackets\n"
+          "  s = s.replace(\"[\", \"\").replace(\"]\", \"\")\n",
+          "def ListofNums(s):\n"
+          "  # remove list brackets\n"
+          "  s = s.replace(\"[\", \"\").replace(\"]\", \"\")"
+          ".replace(\"-\", \"\")\n")]),
     "m95_po2_operand_converted_in_place": dict(expect=["C17"], edits=[
         E(QO + "adder_factory.py",
           "    local_quantizer_1 = copy.deepcopy(quantizer_1)\n"
@@ -1219,6 +1250,42 @@ BENIGN = {
                                                  edits=os.path.join(
         os.path.dirname(os.path.abspath(__file__)), "benign_patches",
         "b67_reduce_axes_memo_keyed_by_format.diff")),
+    # --- round 18 ---------------------------------------------------------
+    "b68_ternary_divides_by_reciprocal": dict(props=["C04", "C05"], edits=[
+        E("qkeras/quantizers.py",
+          "            x / scale,\n"
+          "            use_stochastic_rounding=self.use_stochastic_rounding,\n"
+          "            precision=1. / 3.)\n",
+          "            x * (1.0 / scale),\n"
+          "            use_stochastic_rounding=self.use_stochastic_rounding,\n"
+          "            precision=1. / 3.)\n")]),
+    "b69_list_brackets_stripped": dict(props=["C10", "C09", "C20"], edits=[
+        E("qkeras/safe_eval.py",
+          "def ListofNums(s):\n"
+          "  # remove list brackets\n"
+          "  s = s.replace(\"[\", \"\").replace(\"]\", \"\")\n",
+          "def ListofNums(s):\n"
+          "  # remove list brackets\n"
+          "  s = s.strip(\"[]\")\n")]),
+    "b70_transpose_output_padding_test_inverted": dict(props=["C11"], edits=[
+        E("qkeras/qconvolutional.py",
+          "    if self.output_padding is None:\n"
+          "      out_pad_h = out_pad_w = None\n"
+          "    else:\n"
+          "      out_pad_h, out_pad_w = self.output_padding\n",
+          "    if self.output_padding is not None:\n"
+          "      out_pad_h, out_pad_w = self.output_padding\n"
+          "    else:\n"
+          "      out_pad_h = out_pad_w = None\n")]),
+    "b71_np_value_unwraps_in_one_return": dict(props=["C16", "C17", "C18"],
+                                               edits=[
+        E(QO + "quantizer_impl.py",
+          "    if isinstance(val, np.ndarray) and len(val) == 1:\n"
+          "      return val[0]\n"
+          "    else:\n"
+          "      return val\n",
+          "    return val[0] if isinstance(val, np.ndarray) and "
+          "len(val) == 1 else val\n")]),
     # --- round 15 ---------------------------------------------------------
     "b61_foldable_classes_in_a_tuple": dict(props=["C15"], edits=[
         E("qkeras/utils.py",
